@@ -71,18 +71,21 @@ def _coverage(rs):
 SPEC = dict(
     level="exploration",
     rule="Case = one regular-expression AST (or one catalogue entry). ASTs: EVERY tree with <= N nodes over the stated atom set "
-         "(full: a b . [ab] [^a] [a-c-[b]] \\d \\w \\s \\i \\c \\p{Lu} \\P{Lu} \\p{IsBasicLatin} \\. U+10000 <empty>; small: a b . [ab] <empty> (small4: without <empty>); tiny: a b .) and operators "
-         "concat, |, group, ? * + {0} {1} {2} {1,} {0,2} {2,3} (mini: ? * + {2,3}; star: ? * +), rendered to concrete syntax. Each AST is compiled in XML-Schema mode "
-         "(options X,XFH - small/tiny quick runs also XF,XH; anchored) and in the XPath flavour (options '',F,H,FH; search) and run on EVERY string of length <= L over "
-         "{a,b,c,B,1,space,U+10000} (abc: {a,b,c}); verdicts are compared with a Brzozowski-derivative matcher over the AST (itself cross-checked on every "
-         "string against a position-set evaluator) and across the option sets. quick: full N<=3 x L<=4 (2465 ASTs x 2801 strings), small N<=4, tiny N<=5 x abc L<=4; "
-         "thorough: full N<=4 x L<=3, full N<=3 x L<=5, small4 N<=5, tiny/mini N<=5, tiny/star N<=6. flags: every AST <= N (3/4) nodes over {a,b,B,.,[ab],[^a],^,$} x every subset of "
-         "{i,s,m,x} x {'',F,H,FH} x every string <= 3 over {a,A,b,\\n}: verdict and Match group-0 positions. history: every AST <= N (2/3) nodes, one compiled "
-         "object and one Match object reused over all 900 ordered pairs of a fixed 30-string set, compared with fresh objects. tokrep: every AST <= N (3/4) nodes x "
-         "strings <= 4 over {a,b,c,U+10000}: tokenize/replace/Match positions vs reference leftmost matches. malformed: 196-entry catalogue (malformed => "
-         "ParseException; must-not-crash; valid corners with by-construction examples) + every AST <= N (3/4) nodes containing the quantifier {2,1}. facet: every "
-         "AST <= N (2/3) nodes as xs:pattern facet validating 400 instance values through the real parser. Non-trivial = (AST, dialect) pairs whose reference "
-         "language accepts and rejects at least one enumerated string (each AST counted in one run only) + (AST, flag set) pairs of the same kind + catalogue cases.",
+         "(full: a b . [ab] [^a] [a-c-[b]] \\d \\w \\s \\i \\c \\p{Lu} \\P{Lu} \\p{IsBasicLatin} \\. U+10000 <empty>; small: a b . [ab] <empty>; small4: a b . [ab]; "
+         "tiny: a b .) and operators concat, |, group, ? * + {0} {1} {2} {1,} {0,2} {2,3} (mini: ? * + {2,3}; star: ? * +; tiny sets without explicit group nodes), "
+         "rendered to concrete syntax. Each AST is compiled in XML-Schema mode (options X,XFH, in the small/tiny quick runs also XF,XH; matches() anchored) and in the "
+         "XPath flavour (options '',F,H,FH; matches() is a search) and run on EVERY string of length <= L over {a,b,c,B,1,space,U+10000} (abc: {a,b,c}); verdicts are "
+         "compared with a Brzozowski-derivative matcher over the AST (itself cross-checked on every string against a position-set evaluator) and across the option sets. "
+         "quick: full N<=3 x L<=4 (2465 ASTs x 2801 strings), small N<=4 and tiny/mini N<=5 x abc L<=4 (121 strings). thorough: full N<=4 x L<=3 (36805 ASTs x 400), "
+         "full N<=3 x L<=5 (19608 strings), small4 N<=5 x abc L<=3 (65148 ASTs), tiny/mini N<=5 and tiny/star N<=6 (10560 ASTs) x abc L<=4. "
+         "flags: every AST <= N (quick 3 / thorough 4) nodes over {a,b,B,.,[ab],[^a],^,$} x every subset of {i,s,m,x} x {'',FH} x every string <= 3 over {a,A,b,\\n}: "
+         "verdict, option independence and Match group-0 positions. history: every AST <= 3 nodes (quick: small atoms, 605; thorough: full, 2465), one compiled object and "
+         "one Match object reused over all 900 ordered pairs of a fixed 30-string set (with and without Match), compared with fresh objects and the reference. tokrep: every "
+         "full AST <= N nodes (quick N=3 x strings <= 4, thorough N=4 x strings <= 3, over {a,b,c,U+10000}): tokenize/replace/Match positions vs reference leftmost matches. "
+         "malformed: 196-entry catalogue (101 malformed => ParseException, 5 bad option strings, 23 must-not-crash, 67 valid corners with by-construction examples) + every "
+         "AST <= N (3/4) nodes containing the quantifier {2,1} (374 / 7735). facet: every full AST <= N (2/3) nodes as xs:pattern facet validating 400 instance values "
+         "through the real parser. Non-trivial = (AST, dialect) pairs whose reference language accepts and rejects at least one enumerated string (each AST counted in one "
+         "run only) + (AST, flag set) pairs of the same kind + catalogue/bad-quantifier cases.",
     trusted_base=["drv/c11_regex.cpp reference semantics: Brzozowski derivatives over the AST, cross-checked against an independent position-set evaluator",
                   "hard-coded class membership of the 9 alphabet characters from XML Schema Part 2 (2nd ed.) appendix F and the Unicode general categories (stable since Unicode 4.0)",
                   "clang 14 ASan/UBSan"],
